@@ -47,7 +47,9 @@ func runC10(ctx *Ctx) {
 	ruleShutdownOrder(ctx, "C10-R4")
 	ruleCallBracket(ctx, "C10-R5")
 	ruleRefTransfer(ctx, "C10-R6")
+	ruleFulfillTarget(ctx, "C10-R6b")
 	r := ctx.Rep
+	r.Floor("C10-R6b", 1)
 	r.Floor("C10-R1", 40)
 	r.Floor("C10-R2", 60)
 	r.Floor("C10-R3", 3)
